@@ -326,3 +326,18 @@ def pc_only_program(rng):
             its = [("call", 0, rng.choice(CALL_FORMS), rng.choice(PLACEMENTS))] if rng.random() < 0.5 else [("acc", "pc", 0, rng.choice(PLACEMENTS))]
         p.entries.append(("e%d_%s" % (k, st[:2]), st, its))
     return p
+
+
+def late_pc_user_program(rng):
+    """entry points of all three stages that touch only bindings shared by all of them come first; the push constant (or
+    one more binding) is first used by an entry point declared AFTER them: it has that stage, nothing more"""
+    p = Program()
+    p.globals = [(gname(rng, 0), "uniform", 0, 0), (gname(rng, 1), "uniform_struct", 0, 1), (gname(rng, 2), rng.choice(["uniform", "storage_ro"]), 1, 0)]
+    p.push_constant = (rng.choice(PC_NAMES), rng.choice(["f32", "vec4<f32>", "US"]))
+    shared = [("acc", 0, 0, "top"), ("acc", 1, 0, "top")]
+    order = ["vertex", "fragment", "compute"]
+    rng.shuffle(order)
+    p.entries = [("e%d_%s" % (k, st[:2]), st, list(shared)) for k, st in enumerate(order)]
+    late = rng.choice(["fragment", "vertex", "compute"])
+    p.entries.append(("late_" + late[:2], late, [("acc", "pc", rng.randrange(3), rng.choice(PLACEMENTS)), ("acc", 2, 0, "top")]))
+    return p
